@@ -20,6 +20,8 @@ R11.f  no for-loop variable of these modules is read after its loop (a statement
        left one indentation level too shallow sees only the last element).
 R11.g  no str-Enum value (FeatureType, ...Type) is tested by identity: plain strings
        are accepted for these enums and are equal, not identical, to the member.
+R11.h  no closure created in a loop of these modules keeps the loop variable by
+       reference (late binding) - every kept closure would see the last value.
 """
 
 from __future__ import annotations
@@ -46,6 +48,7 @@ MANIFEST = {
         "numerical and is NOT decided."
         " Also decided: no for-loop variable of these modules is read after its loop (statement left one indentation level too shallow)."
         " Also decided: no str-Enum value is tested by identity (plain strings are accepted for these enums)."
+        " Also decided: no closure created in a loop keeps the loop variable by reference (late binding)."
     ),
     "note": "Reset-time re-initialisation of each feature observer is C12's R12.a/R12.b.",
     "technique": "sibling-loop agreement + constructor path linearisation + registry table check + typed accessor lint",
@@ -60,6 +63,9 @@ ASSUMPTIONS = ["numpy.concatenate(axis=1) places blocks left to right in list or
 
 def run(ctx):
     chk, repo = ctx.chk, ctx.repo
+    from .common import check_late_binding
+
+    check_late_binding(ctx, "R11.h", ("job_shop_lib.dispatching.feature_observers",), "the feature-observer")
     from .common import check_str_enum_identity
 
     check_str_enum_identity(ctx, "R11.g", ("job_shop_lib.dispatching.feature_observers", "job_shop_lib.reinforcement_learning"), "the feature-observer / environment")
